@@ -215,6 +215,10 @@ class Builder:
             return v.load()
         return v  # by-value parameter Expr
 
+    def b_DynLoad(self, t):
+        d = pt.DynamicScratchVar(pt.TealType.uint64)
+        return pt.Seq(d.set_index(self.var(t[1])), d.load())
+
     def b_TxnField(self, t):
         return TXN_ACCESS[t[1]]()
 
